@@ -198,7 +198,7 @@ def form_tag(prop, plain_value) -> str:
 
 def prune_dead(e: absdoc.AbsEl):
   """drops elements whose interval is empty (never presented; the reader may legitimately drop them)"""
-  e.children = [c for c in e.children if c.kind in ("Text", "Br") or not (c.end is not None and c.end <= (c.begin or 0))]
+  e.children = [c for c in e.children if c.kind == "Text" or not (c.end is not None and c.end <= (c.begin or 0))]
   for c in e.children:
     prune_dead(c)
 
@@ -548,6 +548,23 @@ def check_corruption(ctx, c: dict):
     ctx.count(f"corrupt:{kind}:judged")
 
 
+def directed_docs():
+  """br children of sequential containers (zero implicit duration: the siblings after them keep their place in the
+  sequence) - enumerated rather than drawn so that the random stream of the generated documents is unchanged (s-C04-13)"""
+  head = ('<?xml version="1.0" encoding="UTF-8"?>\n<tt xml:lang="en" xmlns="http://www.w3.org/ns/ttml" '
+          'xmlns:tts="http://www.w3.org/ns/ttml#styling"><head><layout><region xml:id="r1"/></layout></head><body>')
+  tail = '</body></tt>'
+  a, b, c = '<span dur="1s">A</span>', '<span dur="2s">B</span>', '<span begin="1s" end="3s">C</span>'
+  for pattrs in ('', ' begin="10s"', ' begin="2s" dur="20s"'):
+    for kids in (a + '<br/>' + b, '<br/>' + a + b, a + b + '<br/>', a + '<br/><br/>' + c, '<br/>' + c + '<br/>' + a,
+                 a + '<br tts:color="red"/>' + c + b):
+      yield f'{head}<div><p region="r1" timeContainer="seq"{pattrs}>{kids}</p></div>{tail}'
+      yield (f'{head}<div><p region="r1"{pattrs}><span timeContainer="seq">{kids}</span>'
+             f'<span begin="1s">Z</span></p></div>{tail}')
+      yield (f'{head}<div timeContainer="seq"><p region="r1" dur="1s">X</p><p region="r1" timeContainer="seq"{pattrs}>'
+             f'{kids}</p><p region="r1" dur="2s">Y</p></div>{tail}')
+
+
 def run(ctx, params):
   sh = params["shard"]
   if params.get("bundled"):
@@ -557,6 +574,9 @@ def run(ctx, params):
         xml = fh.read()
       st = check_doc(ctx, xml, source="bundled")
       ctx.count("bundled:compared" if st != "skipped" else "bundled:skipped")
+    for xml in directed_docs():
+      check_doc(ctx, xml, ("directed:br-in-seq",), source="directed")
+      ctx.count("directed:docs")
   else:
     ctx.count("bundled:compared", 0)
   for i in range(params["docs"]):
